@@ -146,7 +146,13 @@ func isoExec(st *isoDoc, op Op) (string, string) {
 			}
 			d.AddListItem(tok, cfg)
 		case "RestartNumbering":
+			// no return value: whether the call changed the numbering part is its observable result
+			before, had := d.GetParts()["word/numbering.xml"]
 			d.RestartNumbering(a)
+			after, has := d.GetParts()["word/numbering.xml"]
+			if had != has || !bytes.Equal(before, after) {
+				return "changed"
+			}
 		case "AddParagraph":
 			d.AddParagraph(tok)
 		case "AddTable":
